@@ -14,7 +14,7 @@ FACTS = os.path.join(LEAN, "Gopki", "Generated", "Facts.lean")
 NCPU = min(16, os.cpu_count() or 4)
 
 GOENV = dict(os.environ, GOFLAGS="-mod=mod", GOPROXY="off", GOSUMDB="off", GOTOOLCHAIN="local",
-             CGO_ENABLED="0")
+             CGO_ENABLED="0", VERIF_CORPUS=os.path.join(VERIF, "corpus"))
 
 
 def log(*a):
